@@ -271,6 +271,8 @@ def value_kind(st, v):
 		return ('int',)
 	if isinstance(v, SInt):
 		return ('npint',) if getattr(v, 'npint', False) else ('int',)
+	if isinstance(v, Ref) and False:
+		pass
 	if isinstance(v, (str, SStr)):
 		return ('str',)
 	if isinstance(v, bytes):
